@@ -8,6 +8,7 @@ package main
 // table of an uninterrupted ingestion of the same history. Oracle only (the model's prefixes are whole statements).
 
 import (
+	dbsql "database/sql"
 	"fmt"
 	"strings"
 
@@ -111,6 +112,81 @@ func c05DeepReorg(c *Ctx) error {
 				What:     "after a storage failure inside one state update of a deep reorganisation, restart and redelivery do not reach the table of the uninterrupted run (the faulted submission answered: " + strings.Fields(out + " -")[0] + ")",
 				Expected: ws, Observed: gs, Signature: "c05-deep-reorg-partial-state-update"})
 		}
+	}
+	return c05CommitBlocked(c)
+}
+
+// c05CommitBlocked: a failure that only shows at COMMIT time. Another connection keeps a read cursor open on the
+// table (as a slow API reader would), so the first write transaction of a reorganising submission cannot get its
+// exclusive lock and its COMMIT fails after SQLite's busy timeout. The submission must be answered with an error and,
+// after the reader is gone, restart and redelivery must reach the table of the uninterrupted run.
+func c05CommitBlocked(c *Ctx) error {
+	nodes := []Node{{Parent: -1, Bits: bitsSmall[1]}, {Parent: 0, Bits: bitsSmall[1]}, {Parent: 1, Bits: bitsSmall[1]},
+		{Parent: -1, Bits: bitsSmall[1]}, {Parent: 3, Bits: bitsSmall[1]}, {Parent: 4, Bits: bitsSmall[1]}, {Parent: 5, Bits: bitsSmall[1]}}
+	buildTree(nodes, 6300+uint32(c.Seed), nil, false)
+	labels := func(ci *ChainImpl) string {
+		rows, _ := ci.Dump()
+		var sb strings.Builder
+		for _, r := range rows {
+			sb.WriteString(r.Hash[:8] + ":" + r.State[:1] + " ")
+		}
+		return sb.String()
+	}
+	ref, err := newChainImpl("c05-commit-ref.db", lib.StackOpts{NoEngine: true})
+	if err != nil {
+		return err
+	}
+	for i := range nodes {
+		ref.Op("add " + nodes[i].Hdr.Hex())
+	}
+	want := labels(ref)
+	ref.Close()
+	ci, err := newChainImpl("c05-commit.db", lib.StackOpts{NoEngine: true})
+	if err != nil {
+		return err
+	}
+	defer ci.Close()
+	for i := 0; i < len(nodes)-1; i++ {
+		ci.Op("add " + nodes[i].Hdr.Hex())
+	}
+	rd, err := dbsql.Open("sqlite3", "file:"+ci.file)
+	if err != nil {
+		return err
+	}
+	rd.SetMaxOpenConns(1)
+	cur, err := rd.Query("SELECT hash FROM headers")
+	if err != nil {
+		rd.Close()
+		return err
+	}
+	cur.Next() // the cursor stays open: a shared lock is held
+	out := ci.Op("add " + nodes[len(nodes)-1].Hdr.Hex())
+	cur.Close()
+	rd.Close()
+	c.R.OracleChecked++
+	c.R.Case("reorganising submission whose first COMMIT is blocked by a reader", true)
+	c.R.Count("submission with a COMMIT-time storage failure (reader holds the table)", 1)
+	rows, _ := ci.Dump()
+	answered := strings.Fields(out + " -")[0]
+	inTable := false
+	for _, r := range rows {
+		if r.Hash == nodes[len(nodes)-1].Hdr.HashStr() {
+			inTable = true
+		}
+	}
+	if answered == "stored" && !inTable {
+		c.R.Fail(lib.Failure{Case: "commit blocked by a reader", Ops: []string{"# c05 commit: a second connection keeps a read cursor open on table headers while the reorganising header is submitted"},
+			What: "the submission was answered 'stored' although its COMMIT failed: the header is not in the table", Expected: "an error answer, or the header in the table", Observed: out, Signature: "c05-commit-failure-reported-as-success"})
+	}
+	if err := ci.Restart(); err != nil {
+		return err
+	}
+	for i := range nodes {
+		ci.Op("add " + nodes[i].Hdr.Hex())
+	}
+	if got := labels(ci); got != want {
+		c.R.Fail(lib.Failure{Case: "commit blocked by a reader", Ops: []string{"# c05 commit: a second connection keeps a read cursor open on table headers while the reorganising header is submitted; then the reader goes away, restart, redelivery of the whole history"},
+			What: "after a COMMIT-time failure inside a reorganising submission (answered: " + answered + "), restart and redelivery do not reach the table of the uninterrupted run", Expected: want, Observed: got, Signature: "c05-commit-failure-not-recovered"})
 	}
 	return nil
 }
